@@ -20,7 +20,7 @@ Definition rows : list (string * (list string * list string)) := [
   ("jobs.<job_id>.environment.url", (["env"; "github"; "inputs"; "job"; "matrix"; "needs"; "runner"; "steps"; "strategy"; "vars"], []));
   ("jobs.<job_id>.if", (["github"; "inputs"; "needs"; "vars"], ["always"; "cancelled"; "failure"; "success"]));
   ("jobs.<job_id>.name", (["github"; "inputs"; "matrix"; "needs"; "strategy"; "vars"], []));
-  ("jobs.<job_id>.outputs.<output_id>", (["env"; "github"; "inputs"; "job"; "matrix"; "needs"; "runner"; "secrets"; "steps"; "strategy"; "vars"], ["hashfiles"]));
+  ("jobs.<job_id>.outputs.<output_id>", (["env"; "github"; "inputs"; "job"; "matrix"; "needs"; "runner"; "secrets"; "steps"; "strategy"; "vars"], []));
   ("jobs.<job_id>.runs-on", (["github"; "inputs"; "matrix"; "needs"; "strategy"; "vars"], []));
   ("jobs.<job_id>.secrets.<secrets_id>", (["github"; "inputs"; "matrix"; "needs"; "secrets"; "strategy"; "vars"], []));
   ("jobs.<job_id>.services", (["github"; "inputs"; "matrix"; "needs"; "strategy"; "vars"], []));
@@ -50,7 +50,7 @@ Definition special_rows : list (string * list string) := [
   ("always", ["jobs.<job_id>.if"; "jobs.<job_id>.steps.if"]);
   ("cancelled", ["jobs.<job_id>.if"; "jobs.<job_id>.steps.if"]);
   ("failure", ["jobs.<job_id>.if"; "jobs.<job_id>.steps.if"]);
-  ("hashfiles", ["jobs.<job_id>.outputs.<output_id>"; "jobs.<job_id>.steps.continue-on-error"; "jobs.<job_id>.steps.env"; "jobs.<job_id>.steps.if"; "jobs.<job_id>.steps.name"; "jobs.<job_id>.steps.run"; "jobs.<job_id>.steps.timeout-minutes"; "jobs.<job_id>.steps.with"; "jobs.<job_id>.steps.working-directory"]);
+  ("hashfiles", ["jobs.<job_id>.steps.continue-on-error"; "jobs.<job_id>.steps.env"; "jobs.<job_id>.steps.if"; "jobs.<job_id>.steps.name"; "jobs.<job_id>.steps.run"; "jobs.<job_id>.steps.timeout-minutes"; "jobs.<job_id>.steps.with"; "jobs.<job_id>.steps.working-directory"]);
   ("success", ["jobs.<job_id>.if"; "jobs.<job_id>.steps.if"])
 ].
 
